@@ -200,7 +200,7 @@ def run(ctx):
     quick = ctx.tier == "quick"
     frng = random.Random(5)
     specs = []
-    for spec in graphs.family_specs(frng, sizes=(4, 7), ecls=graphs.ECLS_DU, vcls=graphs.VCLS_X):
+    for spec in graphs.family_specs(frng, sizes=(4, 7), ecls=graphs.ECLS_DU, vcls=graphs.VCLS_X + ["VCity", "VCity"]):
         spec = dict(spec)
         if spec["uni"] is None:
             spec["uni"] = list(range(len(spec["verts"])))
@@ -221,7 +221,7 @@ def run(ctx):
                 continue
             spec = specs[n]
         else:
-            spec = graphs.rand_spec(rng, nmax=7 if quick else 12, mmax=9 if quick else 24, ecls=graphs.ECLS_DU, vcls=graphs.VCLS_X,
+            spec = graphs.rand_spec(rng, nmax=7 if quick else 12, mmax=9 if quick else 24, ecls=graphs.ECLS_DU, vcls=graphs.VCLS_X + ["VCity", "VCity"],
                                     uni_mode="rand")
             if spec["uni"] is None:
                 spec["uni"] = [i for i in range(len(spec["verts"])) if rng.random() < 0.8]
